@@ -1,4 +1,4 @@
-\* quick tier: every resolv.conf of <= 3 lines over all 44 line classes, checked and printed
+\* quick tier: every resolv.conf of <= 3 lines over all 47 line classes, checked and printed
 SPECIFICATION Spec
 CONSTANTS
   Alphabet <- Classes
